@@ -7,6 +7,7 @@ package parser
 // directly.
 
 import (
+	"regexp"
 	"go/ast"
 	"go/token"
 	"go/types"
@@ -25,4 +26,12 @@ func VerifParser(file *ast.File, fset *token.FileSet, entries []VerifEntry) *Par
 		p.intfEntries = append(p.intfEntries, &intfEntry{intf: e.Obj, marker: e.Marker})
 	}
 	return p
+}
+
+// VerifFile returns the syntax tree of the input file as the parser holds it.
+func VerifFile(p *Parser) *ast.File { return p.file }
+
+// VerifRegexps returns the compiled directive / notation / marker expressions.
+func VerifRegexps() (goBuildGen, notation, convergen *regexp.Regexp) {
+	return reGoBuildGen, reNotation, reConvergen
 }
